@@ -4,8 +4,7 @@ import grid as G
 
 ASSUMPTIONS = [
     'decided: stdx::cmp_* / in_range / safe_to_cast_to equal the mathematical relation for all values (the gate between the widened product and T in get_value_result)',
-    'decided for uint64_t: checked_int_pow answers OK exactly when base^exp fits and then returns base^exp (lemma-based obligation; arithmetic lemmas checked by Lean). NOT decided (assumed): the intmax_t instantiation '
-    '(signed division in the guards), product returns the exact product, root, everything computed in long double; '
+    'decided for uint64_t: checked_int_pow answers OK exactly when base^exp fits and then returns base^exp (lemma-based obligation; arithmetic lemmas checked by Lean). Also decided for intmax_t (signed division / multiplication as uninterpreted functions, lemmas cps_*). NOT decided (assumed): product returns the exact product, root, everything computed in long double; '
     'representable_in / is_integer / is_rational / numerator / denominator are compile-time classifications (type level)',
     'per-instance values of get_value<T>(m) are checked as constants inside every C03-C10 obligation against the independent N, D']
 
@@ -192,4 +191,36 @@ def obligations(tier, seed):
                            'Loop invariant value * base^exp == base0^exp0 (over the naturals), value >= 1, base >= 1; no multiplication wraps, no division by zero, decreases exp. '
                            'Arithmetic by lemmas cp_init, cp_step, cp_exit (Lean)',
                   functions_under_contract=('au::detail::checked_int_pow<uint64_t>',)))
+    # ---- the signed instantiation (every signed integral T is evaluated in intmax_t): same contract, two's-complement reading, signed division / comparison / multiplication
+    obs.append(Ob(id='C11.lemmas.checked_int_pow_signed', prop='C11', group='C11.lemmas', kind='S', budget=600, body='', prelude='', wrappers=[], inputs=[],
+                  dfcc=dict(tool='lean', text=LM.lean_file(CL.CHECKED_POW_SIGNED, CL.CHECKED_POW_SIGNED_PRELUDE)),
+                  contract='Lean 4 + Mathlib accept: ' + '; '.join('%s (%s)' % (l.name, l.doc) for l in CL.CHECKED_POW_SIGNED)))
+    tgts = '_ZN2au6detail15checked_int_powIlEENS0_24MagRepresentationOrErrorIT_EES3_m'
+    ws = Wrapper('w_c11_pow_l', 'int64_t', [('int64_t', 'b'), ('uint64_t', 'e')], 'return (int64_t)au::detail::checked_int_pow<int64_t>(b, e).value;')
+    invs = ['m_result.f0 == 0 && (int64_t)m_base_addr >= 1 && (int64_t)m_result.f1 >= 1', 'SPECP_spoweq(m_result.f1, m_base_addr, m_exp_addr, vf_ghost[0], vf_ghost[1])']
+    obs.append(Ob(id='C11.exact.checked_int_pow.int64_t', prop='C11', group='C11.pow', prelude=PRE, wrappers=[ws], inputs=[('uint64_t', 'base'), ('uint64_t', 'exp')],
+                  body="""
+  ASSUME((int64_t)base >= 1);
+  vf_ghost[0] = base; vf_ghost[1] = exp;
+  ASSUME(%s);   /* lemma cps_init at (base, exp) */
+  struct L__i32_i64_ r = TARGET(base, exp);
+  CHECK(r.f0 == 0 || r.f0 == 3, "outcome-is-OK-or-CANNOT_FIT");
+  CHECK(r.f0 != 0 || (SPECP_spowfits(base, exp) && r.f1 == SPEC_spow(base, exp)), "OK-means-the-power-fits-and-value-is-exactly-base-to-the-exp");
+  CHECK(r.f0 != 3 || !SPECP_spowfits(base, exp), "CANNOT_FIT-is-answered-only-when-the-power-exceeds-the-type");
+""" % CL.cps_init.inst(b0='base', e0='exp'),
+                  kind='L', promote=False, wrap=True, budget=300, defs=('LL2C_UF_ARITH=1', 'LL2C_UF_DIV=1'), needs=('C11.lemmas.checked_int_pow_signed',),
+                  dfcc=dict(target=tgts,
+                            native_search=dict(pre='(int64_t)base >= 1', call='au::detail::checked_int_pow<int64_t>((int64_t)base, exp)', ret='auto',
+                                               post='ref_oks((int64_t)base, exp, (int)r.outcome, r.value)',
+                                               helpers='static bool ref_oks(int64_t b, uint64_t e, int oc, int64_t v) { __int128 p = 1; bool fits = true; '
+                                                       'if (b > 1) { for (uint64_t i = 0; i < e && fits; ++i) { p *= b; if (p > (__int128)INT64_MAX) fits = false; } } '
+                                                       'return fits ? (oc == 0 && v == (int64_t)p) : (oc == 3); }'),
+                            contracts={tgts: dict(requires=[], ensures=[], assigns='',
+                                                  loops={0: dict(invariant=invs, decreases='m_exp_addr', assigns='m_result, m_base_addr, m_exp_addr, m_retval',
+                                                                 lemmas=[CL.cps_step.inst(v='m_result.f1', b='m_base_addr', e='m_exp_addr', b0='vf_ghost[0]', e0='vf_ghost[1]'),
+                                                                         CL.cps_exit.inst(v='m_result.f1', b='m_base_addr', b0='vf_ghost[0]', e0='vf_ghost[1]')])})}),
+                  contract='checked_int_pow<intmax_t>(base, exp), base >= 1: the outcome is OK EXACTLY when base^exp <= max(int64_t) and then value == base^exp; otherwise ERR_CANNOT_FIT. '
+                           'Loop invariant value * base^exp == base0^exp0 (over the integers), value >= 1, base >= 1; no signed multiplication overflows, no division by zero or MIN / -1, decreases exp. '
+                           'Arithmetic by lemmas cps_init, cps_step, cps_exit (Lean)',
+                  functions_under_contract=('au::detail::checked_int_pow<intmax_t>',)))
     return obs
